@@ -308,7 +308,10 @@ def error_constants(run):
         forms += [f'=IFERROR(A{i + 1},5)', f'=IFERROR(IF(C1,A{i + 1},1),5)', f'=IFERROR(IFS(C1,A{i + 1}),5)', f'=IFERROR(IFERROR(A{i + 1},A{i + 1}),5)', f'=IFERROR(7,A{i + 1})']
         want += [5, 5, 5, 5, 7]
     res = repo.Probe(forms, consts).eval()
-    for f, w, r in zip(forms, want, res):
+    # ... and the same cells holding plain numbers in the workbook, the error values arriving later through set_cells
+    probe2 = repo.Probe(forms, {(0, i): 10 + i for i in range(len(ERRORS))} | {(2, 0): True})
+    res2 = probe2.eval([(0, 0, i, e) for i, e in enumerate(ERRORS)])
+    for f, w, r in list(zip(forms, want, res)) + [(f + '   [A1..A7 overridden with the error values]', w, r) for f, w, r in zip(forms, want, res2)]:
         ok = r[0] == 'val' and r[1] == w
         run.judge({'in': {'formula': f, 'errors_in': 'A1:A7', 'ast': {'t': 'iferror'}, 'emb': 'errconst'}, 'ideal': w, 'obs': str(r[1]) if r[0] == 'val' else f'raises {type(r[1]).__name__}', 'kind': 'error_constant'},
                   ok, clause=f'{f} with A1..A7 = {ERRORS}: {r[1]!r}, an error value in the first argument selects the fallback ({w})', part='error_constants')
